@@ -337,3 +337,52 @@ def registry_per_worker():
 
 
 registry_per_worker.bounded = "two real Worker objects (thread-based manager stand-in), one shared Hop-by-Hop identifier; native"
+
+
+# ------------------------------------------------------------------ the dispatcher loop never waits for a handler
+#  "A caller whose answer has arrived is always woken" needs the dispatcher (Bromelia.main) to keep polling: the
+#  answer of a caller that waits inside a route function is delivered BY that loop.  One iteration, from any state
+#  of the bookkeeping list (0..2 handler threads, each finished or still running -- possibly for ever): the loop
+#  body never blocks, i.e. it only ever joins threads that have finished.
+from pyvc.api import Loop                                             # noqa: E402
+from contracts.stubs import FakeThread                                # noqa: E402
+
+
+def _thread_shape():
+    return T.Obj(FakeThread, idict={"done": T.Sync("event", flag=T.Bool())})
+
+
+@contract("bromelia.bromelia.Bromelia.create_message_thread", prop="C14", name="summary", also=("C13",))
+class _SpawnSummary:
+    args = {"self": T.Obj(BB.Bromelia, idict={}), "msg": _msg(T.Bytes(1))}
+    at_calls = True
+    returns = _thread_shape()
+    proof = "table"
+    assumes = ("Bromelia.create_message_thread starts one handler thread for the message and returns it; the thread "
+               "may still be running (for any length of time) when the dispatcher looks at it",)
+
+
+def main_inv():
+    return True
+
+
+def _main_contract(k):
+    @contract("bromelia.bromelia.Bromelia.main", prop="C14", name="dispatcher-iteration-%d-threads" % k, also=("C13",))
+    class _Main:
+        """one iteration of the dispatcher loop from ANY bookkeeping state with k handler threads (each finished or
+        still running), with or without a new message: it never blocks"""
+        args = {"self": T.Obj(BB.Bromelia, idict={
+            "recv_queues": T.ListOf(T.ListOf(T.OneOf(T.Sync("queue"), T.Sync("queue", items=[_msg(T.Bytes(1))], extra=True)),
+                                             T.Sync("lock")))})}
+        loops = {0: Loop(vars={"thrds": T.ListOf(*[_thread_shape() for _ in range(k)]), "msg": T.NoneS, "thrd": T.NoneS},
+                         inv=main_inv)}
+        bounded = "%d handler threads in the dispatcher's list (each finished or running); one worker queue" % k
+        samples = 0
+
+        def exceptional(exc):
+            return False
+    return _Main
+
+
+for _k in (0, 1, 2):
+    _main_contract(_k)
